@@ -26,6 +26,18 @@ Lemma zlen_nonneg {A} (l : list A) : 0 <= zlen l. Proof. unfold zlen. lia. Qed.
 Lemma zlen_zero {A} (l : list A) : zlen l = 0 -> l = [].
 Proof. destruct l; [reflexivity|unfold zlen; cbn [length]; lia]. Qed.
 
+Lemma NoDup_app_snoc {A} (l : list A) x : NoDup l -> ~ In x l -> NoDup (l ++ [x]).
+Proof.
+  intros H1 H2. eapply Permutation_NoDup; [apply Permutation_cons_append|]. constructor; assumption.
+Qed.
+Lemma NoDup_app_l {A} (l1 l2 : list A) : NoDup (l1 ++ l2) -> NoDup l1.
+Proof.
+  induction l1 as [|a r IH]; cbn [app]; intros H; [constructor|]. inversion H; subst.
+  constructor; [|auto]. intros Hin. apply H2. apply in_or_app. auto.
+Qed.
+Lemma NoDup_app_r {A} (l1 l2 : list A) : NoDup (l1 ++ l2) -> NoDup l2.
+Proof. induction l1 as [|a r IH]; cbn [app]; intros H; [assumption|]. inversion H; subst. auto. Qed.
+
 Lemma nth_error_set_nth_eq {A} (l : list A) : forall n x t,
   nth_error l n = Some t -> nth_error (set_nth l n x) n = Some x.
 Proof.
@@ -385,7 +397,7 @@ Definition wr_ok (hs : list hcall) (base : list hcall) (e : hcall * list hcall) 
   exists o, c_ret w = HOut o /\ out_ok o S /\
     (forall k, In k hs -> kobs k = true -> c_res k <= c_inv w -> In k S) /\
     (forall k, In k S -> In k hs /\ kobs k = true /\ c_inv k < c_res w) /\
-    incl S base.
+    incl S base /\ NoDup S.
 
 Definition holds (pc : hpc) : bool :=
   match pc with oTicket _ | oBucket _ _ _ | oSumLoad _ _ | oSumCas _ _ _ | oCount _ | wLock => false | _ => true end.
@@ -428,7 +440,8 @@ Record InvH (hs : list hcall) (time : Z) (g : ghost) (hb : bool) : Prop := mkInv
   i_wr : map fst (gW g) = filter (fun k => negb (kobs k)) hs;
   i_wrok : Forall (wr_ok hs (base g hb)) (gW g);
   i_mono : StronglySorted (fun a b => incl (snd a) (snd b)) (gW g);
-  i_rt : gown g <> None -> forall k, In k hs -> kobs k = true -> c_res k <= ginv g -> In k (base g hb) }.
+  i_rt : gown g <> None -> forall k, In k hs -> kobs k = true -> c_res k <= ginv g -> In k (base g hb);
+  i_nodup : NoDup hs }.
 
 Definition Inv3 (h : hsh) (T : list (thread HM)) (time : Z) (hs : list hcall) (g : ghost) : Prop :=
   InvT (hot h) (mtx h) g T time /\ InvS h g T /\ InvH hs time g (hot h).
@@ -637,6 +650,7 @@ Proof.
     + constructor.
     + constructor.
     + intros H. exfalso. apply H. reflexivity.
+    + constructor.
 Qed.
 
 (* ====================================================================== *)
@@ -646,6 +660,10 @@ Definition set_ph (g : ghost) (ph : phase) : ghost := mkG (gD0 g) (gD1 g) (gW g)
 
 Definition add_D (g : ghost) (b : bool) (k : hcall) : ghost :=
   mkG (if b then gD0 g else gD0 g ++ [k]) (if b then gD1 g ++ [k] else gD1 g) (gW g) (gown g) (ginv g) (gph g).
+Definition unlock_g (g : ghost) (hb : bool) (w : hcall) : ghost :=
+  mkG (if hb then [] else gD0 g ++ gD1 g) (if hb then gD1 g ++ gD0 g else [])
+      (gW g ++ [(w, gD g (negb hb))]) None 0 Ph0.
+
 Lemma gD_set_ph g ph b : gD (set_ph g ph) b = gD g b.
 Proof. reflexivity. Qed.
 
@@ -736,9 +754,9 @@ Ltac psplit := repeat match goal with |- _ /\ _ => split end.
 Ltac hold_step Hph :=
   eapply step_hold; eauto;
   try solve [reflexivity | apply hot_hput | apply mtx_hput | cbn [set_ph gph]; rewrite Hph; reflexivity].
-Ltac simS := cbn [add_D negb hget hput hot tickets set0 set1 mtx h_bnds s_sum s_cnt s_bk s_zero gD set_ph gD0 gD1 gph gW gown ginv
+Ltac simS := cbn [unlock_g add_D negb hget hput hot tickets set0 set1 mtx h_bnds s_sum s_cnt s_bk s_zero gD set_ph gD0 gD1 gph gW gown ginv
                     pmc pzc pms pzs pmb pzb PhM0 cooled flipped].
-Ltac simSall := cbn [add_D negb hget hput hot tickets set0 set1 mtx h_bnds s_sum s_cnt s_bk s_zero gD set_ph gD0 gD1 gph gW gown ginv
+Ltac simSall := cbn [unlock_g add_D negb hget hput hot tickets set0 set1 mtx h_bnds s_sum s_cnt s_bk s_zero gD set_ph gD0 gD1 gph gW gown ginv
                     pmc pzc pms pzs pmb pzb PhM0 cooled flipped] in *.
 Ltac prepS HS Hph h :=
   destruct HS as [B1 TK CH CC BH BC SH SC ZR FR CD CL];
@@ -781,7 +799,7 @@ Qed.
 Lemma wr_ok_snoc hs bs bs' e k :
   wr_ok hs bs e -> c_inv (fst e) < c_res k -> incl bs bs' -> wr_ok (hs ++ [k]) bs' e.
 Proof.
-  destruct e as [w S]. cbn [fst wr_ok]. intros (o & Hr & Ho & H1 & H2 & H3) Hlt Hincl.
+  destruct e as [w S]. cbn [fst wr_ok]. intros (o & Hr & Ho & H1 & H2 & H3 & H4) Hlt Hincl.
   exists o. psplit; auto.
   - intros k' Hk' Hob Hle. apply in_app_or in Hk'. destruct Hk' as [Hk'|[<-|[]]]; [auto|lia].
   - intros k' Hk'. destruct (H2 k' Hk') as (A & B & C). psplit; auto. apply in_or_app. auto.
@@ -799,7 +817,7 @@ Lemma InvH_obs hs nw g hb b k :
   (gown g <> None -> ginv g <= nw) ->
   InvH (hs ++ [k]) (nw + 1) (add_D g b k) hb.
 Proof.
-  intros HH Hob Hret Hik Hres Hgi. pose proof HH as [TM TOT WR WOK MONO RT]. constructor.
+  intros HH Hob Hret Hik Hres Hgi. pose proof HH as [TM TOT WR WOK MONO RT ND]. constructor.
   - intros k' Hk'. apply in_app_or in Hk'. destruct Hk' as [Hk'|[<-|[]]].
     + destruct (TM k' Hk') as [H1 H2]. split; [lia|assumption].
     + split; [lia|auto].
@@ -814,6 +832,7 @@ Proof.
     intros Ho k' Hk' Hob' Hle. apply in_app_or in Hk'. destruct Hk' as [Hk'|[<-|[]]].
     + apply base_add_incl. auto.
     + specialize (Hgi Ho). lia.
+  - apply NoDup_app_snoc; [assumption|]. intros Hin. destruct (TM _ Hin). lia.
 Qed.
 
 Lemma tinv_none hb g hb' g' time j t : gown g = None -> tinv hb g time j t -> tinv hb' g' time j t.
@@ -821,6 +840,53 @@ Proof.
   unfold tinv. destruct (t_cur t) as [[[o pc] inv]|]; [|auto]. intros Ho [H1 H2]. split; [|assumption].
   destruct (holds pc) eqn:E; [|eapply pcinv_nohold; eauto].
   destruct (pcinv_holds _ _ _ _ _ _ H1 E) as (_ & H & _). congruence.
+Qed.
+
+(* ---- Unlock: the cold list is handed over to the hot list and becomes the Write's snapshot ---- *)
+Lemma ss_snoc {A} (R : A -> A -> Prop) (h : list A) k :
+  StronglySorted R h -> Forall (fun a => R a k) h -> StronglySorted R (h ++ [k]).
+Proof.
+  induction h as [|a r IH]; intros HS HF; cbn [app].
+  - constructor; constructor.
+  - inversion HS; subst. inversion HF; subst. constructor; [auto|].
+    apply Forall_app; split; [assumption|constructor; [assumption|constructor]].
+Qed.
+
+Lemma InvH_unlock hs nw g hb w o0 :
+  InvH hs nw g hb -> flipped (gph g) = true -> gown g <> None ->
+  kobs w = false -> c_ret w = HOut o0 -> c_inv w = ginv g -> c_res w = nw + 1 -> ginv g <= nw ->
+  out_ok o0 (gD g (negb hb)) ->
+  InvH (hs ++ [w]) (nw + 1) (unlock_g g hb w) hb.
+Proof.
+  intros HH Hfl Hown Hkw Hret Hinv Hres Hle Hout. pose proof HH as [TM TOT WR WOK MONO RT ND].
+  assert (Eb : base g hb = gD g (negb hb)) by (unfold base; rewrite Hfl; reflexivity).
+  assert (Eb' : base (unlock_g g hb w) hb = gD g hb ++ gD g (negb hb)) by (destruct hb; reflexivity).
+  rewrite Eb in *.
+  assert (Hcold : forall k, In k (gD g (negb hb)) -> In k hs /\ kobs k = true).
+  { intros k Hk. assert (Hin : In k (gD0 g ++ gD1 g)) by (apply in_or_app; destruct hb; cbn [negb gD] in Hk; auto).
+    eapply Permutation_in in Hin; [|symmetry; exact TOT]. apply filter_In in Hin. exact Hin. }
+  constructor.
+  - intros k' Hk'. apply in_app_or in Hk'. destruct Hk' as [Hk'|[<-|[]]].
+    + destruct (TM k' Hk') as [H1 H2]. split; [lia|assumption].
+    + split; [lia|]. rewrite Hkw. discriminate.
+  - rewrite filter_app. cbn [filter]. rewrite Hkw, app_nil_r, TOT. destruct hb; cbn [unlock_g gD0 gD1]; perm.
+  - cbn [unlock_g gW]. rewrite map_app, filter_app, WR. cbn [map filter fst]. rewrite Hkw. reflexivity.
+  - rewrite Eb'. cbn [unlock_g gW]. apply Forall_app. split.
+    + rewrite Forall_forall in *. intros e He. apply wr_ok_snoc with (gD g (negb hb)); [auto| |apply incl_appr, incl_refl].
+      pose proof (gW_in_hist _ _ _ _ _ HH He) as Hin. destruct (TM _ Hin) as [H1 _]. lia.
+    + constructor; [|constructor]. cbn [wr_ok]. exists o0. psplit; auto.
+      * intros k Hk Hob Hle'. apply in_app_or in Hk. destruct Hk as [Hk|[<-|[]]]; [|congruence].
+        apply RT; auto. lia.
+      * intros k Hk. destruct (Hcold k Hk) as [H1 H2]. psplit; auto; [apply in_or_app; auto|].
+        destruct (TM k H1) as [H3 _]. lia.
+      * apply incl_appr, incl_refl.
+      * assert (ND2 : NoDup (gD0 g ++ gD1 g)).
+        { eapply Permutation_NoDup; [exact TOT|]. apply NoDup_filter. exact ND. }
+        destruct hb; cbn [negb gD]; [eapply NoDup_app_l|eapply NoDup_app_r]; exact ND2.
+  - cbn [unlock_g gW]. apply ss_snoc; [assumption|]. rewrite Forall_forall in *. intros [w1 S1] He.
+    specialize (WOK _ He). cbn [wr_ok] in WOK. destruct WOK as (o1 & _ & _ & _ & _ & Hincl & _). exact Hincl.
+  - cbn [unlock_g gown]. congruence.
+  - apply NoDup_app_snoc; [assumption|]. intros Hin. destruct (TM _ Hin). lia.
 Qed.
 
 Lemma ginv_le hb mx g T nw : InvT hb mx g T nw -> gown g <> None -> ginv g <= nw.
@@ -942,7 +1008,7 @@ Proof.
       eapply InvS_T; eauto.
       destruct HS as [B1 TK CH CC BH BC SH SC ZR FR CD CL]. rewrite Hph in *.
       constructor; cbn [h_bnds hot tickets gD0 gD1 gph gD hget set0 set1] in *; auto.
-    + destruct HH as [TM TOT WR WOK MONO RT].
+    + destruct HH as [TM TOT WR WOK MONO RT ND].
       assert (Eb : base (mkG (gD0 g) (gD1 g) (gW g) (Some i) inv Ph0) (hot h) = base g (hot h))
         by (apply base_eq; cbn [gD0 gD1 gph]; rewrite ?Hph; reflexivity).
       constructor; rewrite ?Eb; cbn [gD0 gD1 gW gown ginv]; auto.
@@ -964,9 +1030,9 @@ Proof.
       eapply InvS_T; eauto.
       prepS HS Hph h. specialize (FR eq_refl). specialize (CD eq_refl).
       destruct hb; simSall; constructor; simS; rewrite ?FR in *; triv; try (bk BH; fail); try (bk BC; fail);
-        rewrite ?app_nil_r in *; cbn [vals map app zlen length] in *; triv;
-        try (intros count Ecnt; inversion Ecnt; subst; lia). Show.
-    + destruct HH as [TM TOT WR WOK MONO RT].
+        rewrite ?app_nil_r, ?zlen_nil in *; cbn [vals map app] in *; triv;
+        try (intros count Ecnt; inversion Ecnt; subst; lia).
+    + destruct HH as [TM TOT WR WOK MONO RT ND].
       assert (Eb : base (set_ph g (PhCool (tickets h))) (negb (hot h)) = base g (hot h)).
       { unfold base. cbn [set_ph gph flipped]. rewrite Hph, negb_involutive. reflexivity. }
       constructor; rewrite ?Eb; cbn [set_ph gD0 gD1 gW gown ginv]; auto.
@@ -1093,5 +1159,29 @@ Proof.
     + cbn [pcinv]. tauto.
     + prepS HS Hph h. destruct hb; simSall; constructor; simS; rewrite ?Hph; simS; triv.
   - (* wUnlock *)
-    admit.
-Admitted.
+    inversion Hs; subst h' nxt; clear Hs. destruct Hrest as (t' & Hfr & -> & ->).
+    cbn [pcinv] in Hpc. destruct Hpc as ((-> & Hg & Hgi) & Hph & Hout).
+    set (w := @mkCall HM tid (t_idx t) HWrite (HOut o0) inv (nw + 1)).
+    exists (unlock_g g (hot h) w).
+    destruct (fresh_tpc _ _ Hfr) as (FA & FB & FS).
+    unfold Inv3. cbn [hot mtx]. split; [|split].
+    + constructor.
+      * intros j tj Hj. apply nth_error_set_nth_inv in Hj. destruct Hj as [[-> ->]|[Hne Hj]].
+        -- apply fresh_tinv. assumption.
+        -- apply tinv_mono with nw; [lia|]. eapply tinv_other; eauto. apply (i_thr _ _ _ _ _ HT). exact Hj.
+      * cbn [unlock_g gown gph]. auto.
+    + destruct (T_same T i t t' Ht) as (HA & HB & HS2);
+        try (intros; unfold tpc at 2; rewrite Hc; rewrite ?FA, ?FB, ?FS; reflexivity).
+      eapply InvS_T; eauto.
+      prepSc HS Hph h.
+      destruct hb; simSall; constructor; simS; rewrite ?zlen_app, ?zlen_nil, ?vals_app in *; triv.
+      all: try (let j := fresh "j" in let Hj := fresh "Hj" in
+                intros j Hj; rewrite ?cnteq_app, ?cnteq_nil, ?B0; specialize (BH j Hj); specialize (BC j Hj);
+                rewrite ?B0 in *; bcases; fail).
+      all: rewrite ?S0; cbn [vals map app]; try (rewrite SC; constructor).
+      all: eapply SO_perm; [|exact SH]; perm.
+    + apply InvH_unlock with o0; auto; try reflexivity.
+      * rewrite Hph. reflexivity.
+      * congruence.
+      * lia.
+Qed.
